@@ -38,6 +38,7 @@ func (it *interpreter) runInit(p *ssa.Package) {
 
 var usedStubs = map[string]bool{}
 
+
 // syncMapState is the content of one sync.Map.
 type syncMapState struct{ keys, vals []iface }
 
@@ -921,6 +922,67 @@ func init() {
 		},
 	})
 
+	// ---- strings.Replacer (host object behind a pointer cell; concrete strings only)
+	reg(map[string]externalFn{
+		"strings.NewReplacer": func(fr *frame, args []value) value {
+			var pairs []string
+			if sl, ok := args[0].([]value); ok {
+				for _, x := range sl {
+					if isSym(x) {
+						abortf("symbolic argument to strings.NewReplacer at %s", fr.caller.pos())
+					}
+					pairs = append(pairs, x.(string))
+				}
+			}
+			cell := new(value)
+			*cell = nativeHandle{strings.NewReplacer(pairs...)}
+			return cell
+		},
+		"(*strings.Replacer).Replace": func(fr *frame, args []value) value {
+			cell := ptrArg(fr, args[0], "Replacer.Replace")
+			if isSym(args[1]) {
+				abortf("symbolic argument to strings.Replacer.Replace at %s", fr.caller.pos())
+			}
+			return (*cell).(nativeHandle).v.(*strings.Replacer).Replace(args[1].(string))
+		},
+	})
+
+	// ---- strings.Builder (content kept on the host, keyed by the builder's address; concrete strings only)
+	sb := func(fr *frame, args []value, what string) *strings.Builder {
+		it := fr.i
+		p := ptrArg(fr, args[0], "strings.Builder."+what)
+		if it.builders == nil {
+			it.builders = map[*value]*strings.Builder{}
+		}
+		b := it.builders[p]
+		if b == nil {
+			b = &strings.Builder{}
+			it.builders[p] = b
+		}
+		return b
+	}
+	reg(map[string]externalFn{
+		"(*strings.Builder).WriteString": func(fr *frame, args []value) value {
+			if isSym(args[1]) {
+				abortf("symbolic argument to strings.Builder.WriteString at %s", fr.caller.pos())
+			}
+			n, _ := sb(fr, args, "WriteString").WriteString(args[1].(string))
+			return tuple{n, iface{}}
+		},
+		"(*strings.Builder).WriteByte": func(fr *frame, args []value) value {
+			sb(fr, args, "WriteByte").WriteByte(args[1].(byte))
+			return iface{}
+		},
+		"(*strings.Builder).WriteRune": func(fr *frame, args []value) value {
+			n, _ := sb(fr, args, "WriteRune").WriteRune(args[1].(rune))
+			return tuple{n, iface{}}
+		},
+		"(*strings.Builder).String": func(fr *frame, args []value) value { return sb(fr, args, "String").String() },
+		"(*strings.Builder).Len":    func(fr *frame, args []value) value { return sb(fr, args, "Len").Len() },
+		"(*strings.Builder).Reset":  func(fr *frame, args []value) value { sb(fr, args, "Reset").Reset(); return nil },
+		"(*strings.Builder).Grow":   func(fr *frame, args []value) value { return nil },
+	})
+
 	// ---- pure std functions executed on the host when arguments are concrete
 	reg(map[string]externalFn{
 		"strings.Join":       native(strings.Join),
@@ -940,6 +1002,24 @@ func init() {
 		"strings.Count":      native(strings.Count),
 		"strings.EqualFold":  native(strings.EqualFold),
 		"strings.Fields":     native(strings.Fields),
+		"strings.CutPrefix":  native(strings.CutPrefix),
+		"strings.CutSuffix":  native(strings.CutSuffix),
+		"strings.Cut":        native(strings.Cut),
+		"strings.SplitN":     native(strings.SplitN),
+		"strings.TrimLeft":   native(strings.TrimLeft),
+		"strings.TrimRight":  native(strings.TrimRight),
+		"strings.IndexByte":  native(strings.IndexByte),
+		"strings.IndexRune":  native(strings.IndexRune),
+		"strings.ContainsRune": native(strings.ContainsRune),
+		"strings.ContainsAny":  native(strings.ContainsAny),
+		"strings.Compare":    native(strings.Compare),
+		"strings.Title":      native(strings.Title), //nolint
+		"strconv.FormatUint": native(strconv.FormatUint),
+		"strconv.Unquote":    native(strconv.Unquote),
+		"unicode.IsSpace":    native(unicode.IsSpace),
+		"unicode.IsLower":    native(unicode.IsLower),
+		"unicode.ToLower":    native(unicode.ToLower),
+		"unicode.ToUpper":    native(unicode.ToUpper),
 		"strconv.Itoa":       native(strconv.Itoa),
 		"strconv.Atoi":       native(strconv.Atoi),
 		"strconv.ParseFloat":  native(strconv.ParseFloat),
